@@ -21,27 +21,6 @@ def LineSafe (t : Bytes) : Prop :=
 /-- the cleaned line of one written record: tokens joined by blanks, ` /`. -/
 def recordLine (toks : List Bytes) : Bytes := joinBlank toks ++ [32, 47]
 
-theorem tok_joinBlank_atomic (next : UInt8) : ∀ (ex : List Bytes) (rest : Bytes), (∀ t ∈ ex, Atomic t) →
-    SepStart rest → ex ≠ [] → tok next none (joinBlank ex ++ rest) = ex ++ tok next none rest := by
-  intro ex
-  induction ex with
-  | nil => intro _ _ _ h; exact absurd rfl h
-  | cons t ts ih =>
-    intro rest hb hr _
-    cases ts with
-    | nil =>
-      simp only [joinBlank, List.singleton_append]
-      exact tok_atomic next t rest (hb t (by simp)) hr
-    | cons u us =>
-      have e : joinBlank (t :: u :: us) ++ rest = t ++ (32 :: (joinBlank (u :: us) ++ rest)) := by
-        simp [joinBlank]
-      rw [e, tok_atomic next t _ (hb t (by simp)) (Or.inr ⟨32, _, rfl, by decide⟩)]
-      have h32 : tok next none (32 :: (joinBlank (u :: us) ++ rest)) = tok next none (joinBlank (u :: us) ++ rest) := by
-        have := tokenize_sep_prefix [32] (joinBlank (u :: us) ++ rest) next (by decide)
-        simpa [tokenize] using this
-      rw [h32, ih rest (fun x hx => hb x (by simp [hx])) hr (by simp)]
-      rfl
-
 /-- the quote-aware scan passes over a blank-joined list of safe tokens. -/
 theorem endState_joinBlank {isT : Bytes → Bool} (hloc : Local2 isT)
     (hblank : ∀ c m, isT [c] = false → isT (c :: 32 :: m) = false) (hT32 : ∀ m, isT (32 :: m) = false) :
@@ -151,13 +130,13 @@ theorem feedLine_recordLine (recog : Bytes → Bool) (k : Kw) (hk : OpenSlashKw 
     rw [recordLine_eq, List.getLast?_append]; simp
   have hdl : (recordLine toks).dropLast = joinBlank toks ++ [32] := by
     rw [recordLine_eq, List.dropLast_concat]
-  have hraw : rawRecord (joinBlank toks ++ [32]) 47 = some toks := by
+  have hraw : rawRecord (joinBlank toks ++ [32]) = some toks := by
     unfold rawRecord
     have he : evenQuotes (joinBlank toks ++ [32]) = true :=
       evenQuotes_append _ _ (evenQuotes_joinBlank toks (fun t ht => (hsafe t ht).2.1)) (by decide)
-    have ht := tok_joinBlank_atomic 47 toks [32] (fun t ht => (hsafe t ht).1)
+    have ht := tok_joinBlank toks [32] (fun t ht => (hsafe t ht).1)
       (Or.inr ⟨32, [], rfl, by decide⟩) hne
-    have h32 : tok 47 none [32] = [] := by decide
+    have h32 : tok .gap [32] = [] := by decide
     simp only [he, ↓reduceIte, tokenize, ht, h32, List.append_nil]
   have hfin : (k.addRecord toks).finished = false := (openSlash_addRecord hk toks).fin
   simp only [feedLine, hlne, Bool.false_eq_true, ↓reduceIte, openSlash_canComplete hk, Bool.false_and,
